@@ -181,7 +181,9 @@ def entries():
                    [("max_iter", v(10, 30)), ("n_init", v(2, 4)), ("tol", v(1e-3, 1e-4))],
                    data_clu, ["predict", "transform"], seed="rs", bad=[("n < k", _bad_too_few), ("weights", _bad_l1_weights)]))
     E.append(Entry("ConstraintKMeans[weights]",
-                   lambda k: M.ConstraintKMeans(n_clusters=[2, 3][k], strategy="weights", max_iter=[21, 10][k], random_state=[0, 1][k], n_init=2),
+                   # (variant 1: random initial labels and many clusters for the data: clusters run empty and are relocated)
+                   lambda k: M.ConstraintKMeans(n_clusters=[2, 8][k], strategy="weights", max_iter=[21, 10][k], random_state=[0, 1][k], n_init=2,
+                                                kmeans0=[True, False][k]),
                    [("max_iter", v(11, 20)), ("learning_rate", v(0.5, 1.0))],
                    data_clu, ["predict", "transform"], seed="global"))
     E.append(Entry("ConstraintKMeans",
@@ -241,6 +243,11 @@ def entries():
                    lambda k: M.ClassifierAfterKMeans(estimator=[_logreg(), _dtc(2)][k], clus=_km([2, 3][k])),
                    [("c_n_clusters", v(2, 3)), ("c_n_init", v(1, 3)), ("e_random_state", v(0, 1))],
                    data_clf, ["predict", "predict_proba"], seed="none", bad=[("short y", _bad_short_y)]))
+    E.append(Entry("ClassifierAfterKMeans[defaults]",
+                   # no inner model given: each instance creates its own LogisticRegression / KMeans
+                   lambda k: M.ClassifierAfterKMeans(c_n_clusters=[2, 3][k], e_max_iter=[200, 300][k]),
+                   [("c_n_clusters", v(2, 4)), ("c_n_init", v(1, 3)), ("e_C", v(0.5, 2.0))],
+                   data_clf, ["predict", "predict_proba"], seed="none"))
     E.append(Entry("ExtendedFeatures",
                    lambda k: M.ExtendedFeatures(kind=["poly", "poly-slow"][k], poly_degree=[2, 3][k]),
                    [("kind", v("poly-slow", "poly")), ("poly_degree", v(1, 3)), ("poly_interaction_only", v(True, False)), ("poly_include_bias", v(False, True))],
@@ -278,7 +285,8 @@ def entries():
                    data_reg, ["transform"]))
     E.append(Entry("ApproximateNMFPredictor",
                    lambda k: M.ApproximateNMFPredictor(n_components=[2, 3][k], force_positive=[False, True][k], random_state=0, max_iter=400, tol=1e-4),
-                   [("n_components", v(2, 3)), ("force_positive", v(True, False)), ("random_state", v(1, 2)), ("tol", v(1e-3, 1e-4))],
+                   [("n_components", v(2, 3)), ("force_positive", v(True, False)), ("random_state", v(1, None, 2)), ("tol", v(1e-3, 1e-4)),
+                    ("init", v("nndsvda", None, "nndsvd"))],
                    lambda rng: data_pos(rng, d=4)[:1] + (None,), ["predict"], seed="rs"))
     E.append(Entry("PredictableTSNE",
                    lambda k: M.PredictableTSNE(transformer=stubs.StubEmbedding(), estimator=[_lr(), _dtr(3)][k], normalize=[True, False][k]),
